@@ -68,6 +68,7 @@ type zzC02Bad struct {
 	Concrete string       `json:"concrete"`
 	Lists    any          `json:"lists"`
 	History  any          `json:"history"`
+	Ops      []string     `json:"ops"`
 }
 
 func TestZZVerifC02Replay(t *testing.T) {
@@ -139,22 +140,26 @@ func TestZZVerifC02Replay(t *testing.T) {
 				}
 
 				for k := 0; k < sends; k++ {
-					o := z.query(req, ans, rng, "")
-					evals++
-					want := e.Out
-					if o.Rep && st.Cfg.Cache {
-						want = e.OutR
+					wantOf := func(rep bool) (want []zzC0102Out) {
+						if rep && st.Cfg.Cache {
+							return e.OutR
+						}
+
+						return e.Out
 					}
-					if zzC0102Admissible(o.Out, want) {
+					o, ok := z.settled(req, ans, rng, "", wantOf)
+					evals++
+					if ok {
 						continue
 					}
+					want := wantOf(o.Rep)
 
 					bad++
 					if bad <= 300 {
 						w.put(zzC02Bad{
 							Kind: "bad", I: l.I, S: si, Q: e.K, Qtype: e.Qt, Name: e.Name, Rep: o.Rep,
 							Ans: zzC0102FullRRs(ans), Got: o.Out, Want: want, Concrete: o.Concrete,
-							Lists: z.texts, History: history,
+							Lists: z.texts, History: history, Ops: z.ops,
 						})
 					}
 
@@ -253,6 +258,7 @@ func TestZZVerifC02Trace(t *testing.T) {
 		cfg.Svc = "none"
 		cfg.AAAAOff = rng.Intn(4) == 0
 		cfg.Cache = rng.Intn(3) == 0
+		cfg.Cust = 1 + rng.Intn(2)
 		cfg.Client = zzC0102Client{Known: rng.Intn(2) == 0, Filt: true, Svc: "inherit"}
 		if cfg.Client.Known {
 			cfg.Client.UseOwn = rng.Intn(2) == 0
@@ -282,9 +288,17 @@ func TestZZVerifC02Trace(t *testing.T) {
 					}
 					next.Rules = kept
 				}
-				next.Mode = []string{"default", "refused", "nxdomain", "null_ip", "custom_ip"}[rng.Intn(5)]
+				next.Mode = []string{"default", "refused", "nxdomain", "null_ip", "custom_ip", "custom_ip"}[rng.Intn(6)]
+				next.Cust = 1 + rng.Intn(2)
 				if err = z.reconfigure(&next, rng); err != nil {
 					t.Fatalf("reconfiguring: %v\n%s", err, strings.Join(z.ops, "\n"))
+				}
+				if err = z.quiesce(step); err != nil {
+					// Give this server up; direction A reports reconfigurations
+					// that do not take effect.
+					w.put(map[string]any{"ev": "stuck", "ci": ci, "err": err.Error()})
+
+					break
 				}
 				cur = next
 			}
